@@ -60,6 +60,7 @@ Parse(bs, pos, L) ==
         m == h2.v
         total == h3.v
     IN IF bsz = 0 \/ bsz % 128 # 0 THEN DBad("delta-block-size")
+       ELSE IF bsz > 1048576 THEN DBad("delta-block-size-beyond-model")     \* keeps miniblock byte counts inside TLC's integers
        ELSE IF m = 0 \/ bsz % m # 0 \/ (bsz \div m) % 32 # 0 THEN DBad("delta-miniblock-count")
        ELSE
     LET ms == bsz \div m
